@@ -146,7 +146,7 @@ impl Property for C04 {
         a.clone()
     }
     fn rule(&self) -> String {
-        "proptest generates byte strings (length classes 0,1,2,..., 65535/65536/65537, k*64KiB-1/+0/+1, random up to 300 KiB (thorough 600 KiB); contents uniform / constant 0x00 / constant 0xFF / runs with a flip / 2-3 symbol alphabets / the repository's range-coder-edge-case file) x encoder {lzma WriteToHeader(None) | WriteToHeader(Some(len)) | SkipWritingToHeader, lzma2, xz} x input reader fragmentation {slice, BufReader(cap 1..40, short reads), 1-byte BufRead, random BufRead}. Oracle: every matching lzma-rs decode option returns the input; the independent reference decoder (LZMA with explicit end rules / strict LZMA2 / strict XZ parser) returns the input and consumes the stream exactly; liblzma (alone / raw LZMA2 / stream decoder) returns the input. Non-trivial = input length >= 2; distinct = SipHash of (data spec, encoder, reader).".into()
+        "proptest generates byte strings (length classes 0,1,2,..., 65535/65536/65537, k*64KiB-1/+0/+1, random up to 300 KiB (thorough 600 KiB); contents uniform / constant 0x00 / constant 0xFF / runs with a flip / 2-3 symbol alphabets / the repository's range-coder-edge-case file) x encoder {lzma WriteToHeader(None) | WriteToHeader(Some(len)) | SkipWritingToHeader, lzma2, xz} x input reader fragmentation {slice, BufReader(cap 1..40, short reads), 1-byte BufRead, random BufRead}. Oracle: every matching lzma-rs decode option returns the input; the independent reference decoder (LZMA with explicit end rules / strict LZMA2 / strict XZ parser) returns the input and consumes the stream exactly; liblzma (alone / raw LZMA2 / stream decoder) returns the input; for inputs up to 70 000 bytes the same call into a sink that accepts only part of each write delivers the same bytes. Non-trivial = input length >= 2; distinct = SipHash of (data spec, encoder, reader).".into()
     }
     fn required_classes(&self, tier: Tier) -> Vec<(&'static str, u64)> {
         let m = tier.pick(1, 10);
@@ -164,6 +164,7 @@ impl Property for C04 {
             ("reader:1-byte", 500 * m),
             ("reader:BufReader", 500 * m),
             ("compressed:0xFF run>=2 (carry path)", 100 * m),
+            ("also: sink accepts only part of each write", 2000 * m),
         ]
     }
 
@@ -199,6 +200,7 @@ impl Property for C04 {
             Judgement::violation(sig.to_string(), format!("{} ; data={:?} codec={:?} reader={:?}", msg, c.data, c.codec, c.reader))
         };
         st.eval();
+        let z_main: Vec<u8>;
         match c.codec {
             Codec::Lzma(sel) => {
                 let copt = match sel {
@@ -281,6 +283,7 @@ impl Property for C04 {
                         return bad("roundtrip", format!("lzma_decompress({:?}): {} ; {}", o, r.verdict.brief(), first_diff(&r.out, &data)));
                     }
                 }
+                z_main = z;
             }
             Codec::Lzma2 => {
                 st.class("codec:lzma2");
@@ -313,6 +316,7 @@ impl Property for C04 {
                 if !r.verdict.is_ok() || r.out != data {
                     return bad("roundtrip", format!("lzma2_decompress: {} ; {}", r.verdict.brief(), first_diff(&r.out, &data)));
                 }
+                z_main = z;
             }
             Codec::Xz => {
                 st.class("codec:xz");
@@ -345,6 +349,53 @@ impl Property for C04 {
                 if !r.verdict.is_ok() || r.out != data {
                     return bad("roundtrip", format!("xz_decompress: {} ; {}", r.verdict.brief(), first_diff(&r.out, &data)));
                 }
+                z_main = z;
+            }
+        }
+        // What the encoder emits must not depend on how much the sink accepts per
+        // write call (io::Write allows short writes): same bytes as into a Vec.
+        if data.len() <= 70_000 {
+            let h = hash64(&(c.clone(), "sink"));
+            let pattern: Vec<usize> = match h % 4 {
+                0 => vec![1],
+                1 => vec![1 + (h >> 8) as usize % 7],
+                2 => vec![1 + (h >> 8) as usize % 12, 1 + (h >> 16) as usize % 300, 4096],
+                _ => vec![usize::MAX, 1, usize::MAX, 3],
+            };
+            let io_short = Io { sink: crate::iowrap::SinkCfg { max_per_write: pattern.clone(), ..Default::default() }, ..Default::default() };
+            st.eval();
+            st.class("also: sink accepts only part of each write");
+            let enc = match c.codec {
+                Codec::Lzma(sel) => sut::lzma_compress(
+                    &data,
+                    match sel {
+                        CompSel::HeaderNone => CompOpt::HeaderNone,
+                        CompSel::HeaderLen => CompOpt::HeaderSome(n),
+                        CompSel::Skip => CompOpt::Skip,
+                    },
+                    &c.reader,
+                    &io_short,
+                ),
+                Codec::Lzma2 => sut::lzma2_compress(&data, &c.reader, &io_short),
+                Codec::Xz => sut::xz_compress(&data, &c.reader, &io_short),
+            };
+            if enc.verdict.is_panic() {
+                return bad("panic", format!("short-writing sink: {}", enc.verdict.brief()));
+            }
+            if !enc.verdict.is_ok() {
+                return bad("compress-failed", format!("into a sink accepting {:?} bytes per write: {}", pattern, enc.verdict.brief()));
+            }
+            if enc.out != z_main {
+                return bad(
+                    "short-sink-output-differs",
+                    format!(
+                        "a sink accepting {:?} bytes per write received {} bytes, a Vec {}: {}",
+                        pattern,
+                        enc.out.len(),
+                        z_main.len(),
+                        first_diff(&enc.out, &z_main)
+                    ),
+                );
             }
         }
         // ErrorKind::Interrupted from the source is retryable by convention: the encoder may
